@@ -15,7 +15,7 @@ _SIGMA = [
     ("%20", 1), ("%C2%A0", 0), ("%E2%80%A8", 0), ("%E3%80%80", 0),
     # escaped reserved
     ("%2F", 1), ("%3F", 1), ("%23", 1), ("%26", 1), ("%3D", 1), ("%40", 1), ("%3A", 1), ("%25", 1), ("%2B", 1),
-    ("%3B", 0), ("%5B", 0), ("%5D", 0), ("%7C", 0),
+    ("%3B", 0), ("%5B", 0), ("%5D", 0), ("%7C", 0), ("%3a", 1), ("%2f", 0),
     # double escapes
     ("%2541", 1), ("%2525", 0), ("%252F", 0), ("%25zz", 0),
     # non-UTF-8 / truncated
